@@ -1,7 +1,8 @@
 //! C19 — QPLIB reader.  `qplib_load`: input = [line atoms..] (the text is the lines joined by
 //! '\n', each terminated by '\n'), written to a private temp file and loaded with the public
 //! `ommx::qplib::load_file`.  Result: ok instance-tree | err "qplib" message line
-//! (line = the N of the trailing "(at line N)" of the Display string, -1 if absent).
+//! class (line = the N of the trailing "(at line N)" of the Display string, -1 if absent;
+//! class = ptype | sense | vtype | eof | line | float | int | other, from the message text).
 use crate::conv::*;
 use crate::tree::*;
 use std::io::Write;
@@ -31,6 +32,28 @@ fn line_of(msg: &str) -> i64 {
     }
 }
 
+/// error class from the Display text of ParseErrorReason (the enum itself is not reachable:
+/// the public API returns anyhow::Error and QplibParseError's fields are private)
+fn class_of(msg: &str) -> &'static str {
+    if msg.starts_with("Invalid problem type") {
+        "ptype"
+    } else if msg.starts_with("Invalid OBJSENSE") {
+        "sense"
+    } else if msg.starts_with("Invalid variable type") {
+        "vtype"
+    } else if msg.starts_with("Unexpected end of file") {
+        "eof"
+    } else if msg.starts_with("Line ") && msg.contains("did not match expected formatting") {
+        "line"
+    } else if msg.contains("float") {
+        "float"
+    } else if msg.contains("digit") || msg.contains("integer") || msg.contains("number too") {
+        "int"
+    } else {
+        "other"
+    }
+}
+
 struct Cleanup(std::path::PathBuf);
 impl Drop for Cleanup {
     fn drop(&mut self) {
@@ -38,7 +61,17 @@ impl Drop for Cleanup {
     }
 }
 
+/// `qplib_load`: input = [spec, [line..]] (spec = the abstract model the text was rendered
+/// from; only Coq reads it).  `qplib_load_text`: input = [line..].
 pub fn qplib_load(input: &Tree) -> Result<Tree, String> {
+    let xs = input.as_list()?;
+    if xs.len() != 2 {
+        return Err("qplib_load: input must be [spec, lines]".into());
+    }
+    qplib_load_text(&xs[1])
+}
+
+pub fn qplib_load_text(input: &Tree) -> Result<Tree, String> {
     let mut text = String::new();
     for l in input.as_list()? {
         text.push_str(l.as_str()?);
@@ -54,7 +87,7 @@ pub fn qplib_load(input: &Tree) -> Result<Tree, String> {
         Ok(ins) => ok(e_instance(&ins)),
         Err(e) => {
             let msg = format!("{e}");
-            L(vec![a("err"), a("qplib"), a(&msg), i(line_of(&msg))])
+            L(vec![a("err"), a("qplib"), a(&msg), i(line_of(&msg)), a(class_of(&msg))])
         }
     })
 }
@@ -62,6 +95,7 @@ pub fn qplib_load(input: &Tree) -> Result<Tree, String> {
 pub fn dispatch(op: &str, input: &Tree) -> Option<Result<Tree, String>> {
     match op {
         "qplib_load" => Some(qplib_load(input)),
+        "qplib_load_text" => Some(qplib_load_text(input)),
         _ => None,
     }
 }
